@@ -1,4 +1,6 @@
 import Orca.Lemmas.Locals
+import Orca.Gen.ApiOutline
+import Orca.Model.ApiOutlineSpec
 /-!
 # C14 — added locals get fresh indices of the requested type
 
@@ -60,3 +62,11 @@ example : (addLocals (parsed 2 [(2, 7), (1, 3)]) [3, 3, 9]).2 = [5, 6, 7]
     ∧ (addLocals (parsed 2 [(2, 7), (1, 3)]) [3, 3, 9]).1.decls = [(2, 7), (3, 3), (1, 9)] := by decide
 
 end Orca.Locals
+
+/-- **The tie to the source (regenerated on every run).** The control-and-call skeletons of the functions this property rests on:
+    `add_local` / `add_locals` (module_functions.rs) are what M6 was transcribed from. A step moved, an early exit, guard, call or assignment added or removed breaks this obligation; renaming, comments and
+    formatting do not. -/
+theorem c14_add_local_code_reviewed :
+    Orca.Gen.ApiOutline.add_local = Orca.ApiOutlineSpec.add_local
+    ∧ Orca.Gen.ApiOutline.add_locals = Orca.ApiOutlineSpec.add_locals :=
+  ⟨rfl, rfl⟩
